@@ -5,25 +5,37 @@ From PV Require Import Base.Prelude Base.Decimal Cmd.CLex Cmd.Parser Cmd.Utf7Ok
      Cmd.Grammar Cmd.Commands.
 Local Open Scope N_scope.
 
-(* oracle answers measured by the harness with the standard library:
-   (kind code, charset (ODecode only), value, answer) *)
-Definition otable := list (N * bytes * bytes * N).
-Definition okind_code (k : okind) : N * bytes :=
-  match k with
-  | ODateTime => (0, [])
-  | ODate => (1, [])
-  | OCharset => (2, [])
-  | ODecode c => (3, c)
+(* oracle answers measured by the harness with the standard library *)
+Record otable := {
+  t_dates : list (bytes * N * N);       (* value, ODateTime answer, ODate answer *)
+  t_charsets : list (bytes * N);        (* value, OCharset answer *)
+  t_decodes : list (bytes * bytes * N)  (* charset, value, ODecode answer *)
+}.
+Fixpoint lookup_date (t : list (bytes * N * N)) (v : bytes) : option (N * N) :=
+  match t with
+  | [] => None
+  | (v', a, b) :: r => if bytes_eqb v v' then Some (a, b) else lookup_date r v
   end.
-Fixpoint table_lookup (t : otable) (code : N) (c v : bytes) : N :=
+Fixpoint lookup_charset (t : list (bytes * N)) (v : bytes) : N :=
   match t with
   | [] => 2
-  | (code', c', v', a) :: r =>
-    if (code =? code') && bytes_eqb c c' && bytes_eqb v v' then a
-    else table_lookup r code c v
+  | (v', a) :: r => if bytes_eqb v v' then a else lookup_charset r v
+  end.
+Fixpoint lookup_decode (t : list (bytes * bytes * N)) (c v : bytes) : N :=
+  match t with
+  | [] => 2
+  | (c', v', a) :: r =>
+    if bytes_eqb c c' && bytes_eqb v v' then a else lookup_decode r c v
   end.
 Definition table_oracle (t : otable) : oracle :=
-  fun k v => let '(code, c) := okind_code k in table_lookup t code c v.
+  fun k v =>
+    match k with
+    | ODateTime => match lookup_date (t_dates t) v with Some (a, _) => a | None => 2 end
+    | ODate => match lookup_date (t_dates t) v with Some (_, b) => b | None => 2 end
+    | OCharset => lookup_charset (t_charsets t) v
+    | ODecode c => lookup_decode (t_decodes t) c v
+    end.
+Definition mk_table d c e : otable := {| t_dates := d; t_charsets := c; t_decodes := e |}.
 
 Definition kind_index (k : ckind) : N :=
   match k with
